@@ -460,6 +460,11 @@ pub fn generate_specs(prop: &dyn Prop, tier: Tier) -> Vec<(&'static str, Spec)> 
                 3 => s.paren = oracle::spec::ParenStyle::Redundant((out.len() as u64).wrapping_mul(0x9E37_79B9_7F4A_7C15)),
                 _ => {}
             }
+            // header: a third of the definitions that log nothing and script nothing are
+            // declared without a user state type (`pub Lexer -> u32;`)
+            if out.len() % 3 == 2 && s.can_be_stateless() {
+                s.stateless = true;
+            }
             out.push((profile.name, s));
         }
     }
@@ -620,6 +625,11 @@ fn spec_reductions(spec: &Spec) -> Vec<Spec> {
     if spec.paren != ParenStyle::Full {
         let mut s = spec.clone();
         s.paren = ParenStyle::Full;
+        out.push(s);
+    }
+    if spec.stateless {
+        let mut s = spec.clone();
+        s.stateless = false;
         out.push(s);
     }
     let n_rules = spec.n_rules();
